@@ -9,6 +9,31 @@ def U(name, bin, cmd, shards=(1, 1), timeout=(600, 3000), build="dev", tiers=("q
 
 
 CHECKS = {
+    "C01": dict(
+        level="exploration",
+        rule="one case = one message exchanged with the independent spec codec on a socketpair, in one of the four "
+             "channels and one negotiated configuration; distinct by hash of (channel, message, NEED_REPLY/REPLY_ACK/"
+             "LOG_SHMFD configuration, spec payload bytes); values from the boundary lattice + seeded random patterns, "
+             "every config payload length and 1..=32 regions swept; every case compares real wire bytes/fds in one "
+             "direction and decoded values in the other",
+        units=[U("wire", "hv", "c01", shards=(4, 16))],
+    ),
+    "C04": dict(
+        level="exploration",
+        rule="one case = one request history replayed against a fresh real server and the reference protocol model; "
+             "distinct by the sequence of (request, NEED_REPLY, handler outcome, PF offered) symbols; exhaustive: every "
+             "negotiation prefix up to depth 2 (quick) / 3 + depth 4 without NEED_REPLY variation (thorough) x every "
+             "probe of the full alphabet, depth-2 over the full alphabet (sampled in quick), random histories to depth 16",
+        units=[U("histories", "hv", "c04", shards=(8, 16))],
+    ),
+    "C07": dict(
+        level="exploration",
+        rule="one case = (feature subset or negotiation order, gated operation) on one endpoint; exhaustive over all "
+             "2^11 backend and 2^13 frontend subsets of the gating bits x every gated request, all negotiation orders "
+             "to depth 3 (quick) / 4-5 (thorough) with a probe after every prefix, proxy enable flags; distinct by "
+             "(subset/order id, operation)",
+        units=[U("gates", "hv", "c07", shards=(8, 16))],
+    ),
     "C20": dict(
         level="exploration",
         rule="full product of per-field boundary sets per message type (exhaustive) plus seeded random patterns; "
